@@ -738,46 +738,108 @@ func (c *Ctx) akaRules(r *Report, prefix, mode string) {
 	for _, s := range setCases {
 		setBy[s.K] = s
 	}
+	// Per attribute type T (every constant a setter case, a decoder case or an encoder test mentions, and one
+	// representative "other" type): the decoder path taken for T and an encoder path taken for T agree.
+	_ = kdf
+	consts := map[string]bool{}
+	for _, sc := range setCases {
+		consts[sc.K] = true
+	}
 	for _, dc := range dcases {
-		// the encode path for this case
-		isKDF := kdf != nil && dc.Label == fmt.Sprint(*kdf)
+		if dc.Label != "default" {
+			for _, k := range strings.Split(dc.Label, ",") {
+				consts[k] = true
+			}
+		}
+	}
+	labelConsts := func(lab string) (eq, ne []string) {
+		for _, p := range strings.Split(lab, ",") {
+			if strings.HasPrefix(p, "==") {
+				eq = append(eq, p[2:])
+			} else if strings.HasPrefix(p, "!=") {
+				ne = append(ne, p[2:])
+			}
+		}
+		return
+	}
+	for _, ep := range ebody {
+		eq, ne := labelConsts(ep.Label)
+		for _, k := range append(eq, ne...) {
+			consts[k] = true
+		}
+	}
+	var types []string
+	for k := range consts {
+		types = append(types, k)
+	}
+	sort.Slice(types, func(i, j int) bool {
+		var a, b int
+		fmt.Sscan(types[i], &a)
+		fmt.Sscan(types[j], &b)
+		return a < b
+	})
+	types = append(types, "other")
+	consistent := func(lab, T string) bool {
+		eq, ne := labelConsts(lab)
+		for _, k := range eq {
+			if k != T {
+				return false
+			}
+		}
+		for _, k := range ne {
+			if k == T {
+				return false
+			}
+		}
+		return true
+	}
+	for _, T := range types {
+		// decoder paths for T: the case that lists T, else the default
+		var dcs []akaPath
+		for _, dc := range dcases {
+			if dc.Label == "default" {
+				continue
+			}
+			for _, k := range strings.Split(dc.Label, ",") {
+				if k == T {
+					dcs = append(dcs, dc)
+				}
+			}
+		}
+		if len(dcs) == 0 {
+			for _, dc := range dcases {
+				if dc.Label == "default" {
+					dcs = append(dcs, dc)
+				}
+			}
+		}
 		var encs []akaPath
 		for _, ep := range ebody {
-			lab := ep.Label
-			wantKDF := strings.Contains(lab, "=="+fmt.Sprint(derefInt(kdf)))
-			notKDF := strings.Contains(lab, "!="+fmt.Sprint(derefInt(kdf)))
-			if (isKDF && wantKDF) || (!isKDF && notKDF) {
+			if consistent(ep.Label, T) {
 				encs = append(encs, ep)
 			}
 		}
-		// fields the setter fixes to 0 for every constant of this case
 		zero := map[string]bool{}
-		if dc.Label != "default" {
-			all := true
-			for _, k := range strings.Split(dc.Label, ",") {
-				if s, ok := setBy[k]; !ok || s.Reserved != "0" {
-					all = false
+		if sc, ok := setBy[T]; ok && sc.Reserved == "0" {
+			zero["field:eap.EapAkaPrimeAttr.reserved"] = true
+		}
+		for _, dc := range dcs {
+			dn := normToks(dc.Toks, zero, true)
+			matched := false
+			var encStrs []string
+			for _, ep := range encs {
+				en := normToks(ep.Toks, zero, false)
+				encStrs = appendUniq(encStrs, toksString(ep.Toks))
+				if en == dn {
+					matched = true
 				}
 			}
-			if all {
-				zero["field:eap.EapAkaPrimeAttr.reserved"] = true
+			key := "attribute type " + T + " (decoder case " + dc.Label + ")"
+			if dc.Opt != "" {
+				key += " (" + dc.Opt + ")"
 			}
+			r.Check(matched, ruleT, key, c.Pos(um.Pos()), "decode "+toksString(dc.Toks)+" matches an encoder path for this type", "decoder reads "+toksString(dc.Toks)+" but for this type the encoder writes "+strings.Join(encStrs, " or "))
 		}
-		dn := normToks(dc.Toks, zero, true)
-		matched := false
-		var encStrs []string
-		for _, ep := range encs {
-			en := normToks(ep.Toks, zero, false)
-			encStrs = append(encStrs, toksString(ep.Toks))
-			if en == dn {
-				matched = true
-			}
-		}
-		key := "case " + dc.Label
-		if dc.Opt != "" {
-			key += " (" + dc.Opt + ")"
-		}
-		r.Check(matched, ruleT, key, c.Pos(um.Pos()), "decode "+toksString(dc.Toks)+" matches an encoder path", "decoder reads "+toksString(dc.Toks)+" but the encoder writes "+strings.Join(encStrs, " or "))
 	}
 	// case sets
 	ruleC := prefix + "aka.case-sets"
